@@ -29,10 +29,24 @@ def guarded_types(fb):
             fty = f["ty"]
             if "sync::Mutex<" in fty or "sync::poison::mutex::Mutex<" in fty:
                 inner = fty.split("Mutex<", 1)[1].rstrip(">")
-                ir = fb.adts.get(inner)
-                if ir and any("connection::Endpoint<" in x["ty"] for x in ir["variants"][0]["fields"]):
+                if _owns_endpoint(fb, inner):
                     out[r["path"]] = inner
     return out
+
+
+def _owns_endpoint(fb, ty, depth=0):
+    """The struct `ty` has an Endpoint among its fields, directly or inside a struct-typed field of the workspace (the socket
+    and its bookkeeping may be grouped in an inner struct)."""
+    ir = fb.adts.get(ty)
+    if not ir or ir.get("kind") != "struct" or not ir.get("variants") or depth > 3:
+        return False
+    for x in ir["variants"][0]["fields"]:
+        if "connection::Endpoint<" in x["ty"]:
+            return True
+        inner = x["ty"].split("<", 1)[0]
+        if inner in fb.adts and fb.adts[inner].get("crate") in ("vhost", "vhost_user_backend") and _owns_endpoint(fb, inner, depth + 1):
+            return True
+    return False
 
 
 def io_reaching(fb):
